@@ -66,6 +66,10 @@ def gen_case(rng):
     extra = [i for i in WITHOUT if rng.random() < 0.25]
     kind = rng.choice(['vertex', 'near-vertex', 'trace', 'interior', 'interior', 'interior'])
     m = n + len(extra)
+    if extra and rng.random() < 0.15:
+        # only members without group data are present
+        x = [0.0] * n + [1.0 / len(extra)] * len(extra)
+        return {'cls': cls, 'ids': ids, 'extra': extra, 'kind': 'inert-only', 'x': x, 'T': round(rng.uniform(250, 450), 2), 'd': [0.0] * m, 'pseed': rng.randrange(10 ** 6)}
     if kind == 'vertex':
         x = [0.0] * m; x[rng.randrange(n)] = 1.0
     elif kind == 'near-vertex':
